@@ -234,4 +234,10 @@ def rule_end(ctx):
            "parse_command does not read through the control stream's readline", construct="parse_command:reader")
 
 
-RULES = [rule_label, rule_wire, rule_wait, rule_end]
+def rule_cleanup(ctx):
+    """'...and is followed by the full clean-up of C12': the unconditional cleanup of the dispatcher is a clause of C16 as well"""
+    from .c12 import rule_fields
+    ctx.borrow(rule_fields, {"C12.FIELDS": "C16.CLEANUP"})
+
+
+RULES = [rule_label, rule_wire, rule_wait, rule_end, rule_cleanup]
